@@ -12,18 +12,30 @@ import (
 // H_C09_DamagedData: after any single-byte alteration, truncation or record swap of the data file, a reader never
 // returns, without error, a value different from the one written for a key with a non-empty value. The table may
 // also hold keys with empty values (zero checksum by format design), for which nothing is required.
-func H_C09_DamagedData() {
+func H_C09_DamagedData() { vDamagedData(false) }
+
+// H_C09_Loaders: the same with the other index loaders (skip list, map, disk), on a smaller table shape.
+func H_C09_Loaders() { vDamagedData(true) }
+
+func vDamagedData(otherLoaders bool) {
 	fs := vEnv()
 	defer fs.Cleanup()
 	dir := fs.Path("t")
 	fs.MkdirAll(dir)
 	n := vrt.Range("n", 1, 2)
+	maxLen := 2
+	li := 0
+	if otherLoaders {
+		n, maxLen = 2, 1
+		li = 1 + vrt.Choose("loader", 3)
+		vrt.Tag("loader-" + vLoaderNames[li])
+	}
 	keys := make([][]byte, n)
 	vals := make([][]byte, n)
 	nonEmpty := 0
 	for i := range keys {
 		keys[i] = []byte{byte('a' + i)}
-		l := vrt.Range(vrt.K("v", i, "len"), 0, 2)
+		l := vrt.Range(vrt.K("v", i, "len"), 0, maxLen)
 		vals[i] = vrt.BytesN(vrt.K("v", i), l)
 		if l == 0 {
 			vrt.Tag("has-empty-value")
@@ -33,7 +45,10 @@ func H_C09_DamagedData() {
 		}
 	}
 	vrt.Assume(nonEmpty > 0)
-	dataComp := []int{recordio.CompressionTypeNone, recordio.CompressionTypeSnappy}[vrt.Choose("datacomp", 2)]
+	dataComp := recordio.CompressionTypeNone
+	if !otherLoaders {
+		dataComp = []int{recordio.CompressionTypeNone, recordio.CompressionTypeSnappy}[vrt.Choose("datacomp", 2)]
+	}
 	if vrt.Thorough() {
 		dataComp = vComps[vrt.Choose("datacomp2", 4)]
 	}
@@ -61,7 +76,7 @@ func H_C09_DamagedData() {
 	case 2:
 		vrt.Assume(n == 2)
 		// swap the two records: find the start of the second record through the index
-		ir, err := NewSSTableReader(ReadBasePath(dir), ReadBufferSizeBytes(64))
+		ir, err := NewSSTableReader(ReadBasePath(dir), ReadBufferSizeBytes(64), ReadIndexLoader(vLoader(0, 64)))
 		vrt.Assert(err == nil, "damage/undamaged-table-opens")
 		iv, _ := ir.(*SSTableReader).index.Get(keys[1])
 		ir.Close()
@@ -79,9 +94,9 @@ func H_C09_DamagedData() {
 	var r SSTableReaderI
 	var err error
 	if onRead {
-		r, err = NewSSTableReader(ReadBasePath(dir), ReadBufferSizeBytes(64), SkipHashCheckOnLoad(), EnableHashCheckOnReads())
+		r, err = NewSSTableReader(ReadBasePath(dir), ReadBufferSizeBytes(64), ReadIndexLoader(vLoader(li, 64)), SkipHashCheckOnLoad(), EnableHashCheckOnReads())
 	} else {
-		r, err = NewSSTableReader(ReadBasePath(dir), ReadBufferSizeBytes(64))
+		r, err = NewSSTableReader(ReadBasePath(dir), ReadBufferSizeBytes(64), ReadIndexLoader(vLoader(li, 64)))
 	}
 	vrt.TraceBool("open.err", err != nil)
 	if err != nil {
